@@ -4,7 +4,7 @@ From Coq Require Import String.
 From Coq Require Import List Arith Bool NArith Lia.
 Import ListNotations.
 From YP Require Import Base.Str Lang.Ast Lang.Lexer Lang.Cst Lang.Unquote Lang.Front Comp.IR Comp.CompileBody Comp.CompileClause Comp.CompileTotal Comp.Emit
-  Comp.PyRepr Comp.Limits Comp.CompileText Comp.EmitShape Comp.EmitNames Comp.EmitPieces Comp.EmitLines.
+  Comp.PyRepr Comp.Limits Comp.NumeralName Comp.CompileText Comp.EmitShape Comp.EmitNames Comp.EmitPieces Comp.EmitLines.
 Local Open Scope string_scope.
 Local Open Scope list_scope.
 
@@ -15,22 +15,33 @@ Lemma compile_text_accepts printable s text : compile_text printable s = CText t
 Proof.
   unfold compile_text, compile_ast, finish. intros H.
   destruct (front s) as [p|]; [|discriminate]. destruct (compile_program p) as [ir|] eqn:E; [|discriminate].
+  destruct (ir_bad ir); [discriminate|].
   destruct (ir_nums_ok ir) eqn:En; [|discriminate]. simpl in H. destruct (py_limits ir) eqn:El; [|discriminate].
   injection H as <-. exists p, ir. auto.
+Qed.
+
+(* ... and the compiler did not reach a compound term named by a numeral (Comp/NumeralName.v) *)
+Lemma compile_text_accepts_good printable s text : compile_text printable s = CText text ->
+  exists p ir, front s = Some p /\ compile_program p = Some ir /\ ir_bad ir = false.
+Proof.
+  unfold compile_text, compile_ast, finish. intros H.
+  destruct (front s) as [p|]; [|discriminate]. destruct (compile_program p) as [ir|] eqn:E; [|discriminate].
+  destruct (ir_bad ir) eqn:Eb; [discriminate|]. exists p, ir. auto.
 Qed.
 
 (* the four outcomes, each with its exact cause *)
 Theorem compile_text_cases printable s :
   match compile_text printable s with
-  | CRejectFront => front s = None
+  | CRejectFront => front s = None \/ exists p ir, front s = Some p /\ compile_program p = Some ir /\ ir_bad ir = true
   | CRejectNumeral => exists p ir, front s = Some p /\ compile_program p = Some ir /\ ir_nums_ok ir = false
   | CTooLarge => exists p ir, front s = Some p /\ compile_program p = Some ir /\ ir_nums_ok ir = true /\ py_limits ir = false
   | CText text => exists p ir, front s = Some p /\ compile_program p = Some ir /\ ir_nums_ok ir = true /\ py_limits ir = true /\
                     text = emit_program (py_repr printable) ir
   end.
 Proof.
-  unfold compile_text, compile_ast, finish. destruct (front s) as [p|] eqn:Ef; [|reflexivity].
+  unfold compile_text, compile_ast, finish. destruct (front s) as [p|] eqn:Ef; [|left; reflexivity].
   pose proof (compile_program_total p) as T. destruct (compile_program p) as [ir|] eqn:Ec; [|congruence].
+  destruct (ir_bad ir) eqn:Eb; [right; exists p, ir; auto|].
   destruct (ir_nums_ok ir) eqn:En; simpl; [|exists p, ir; repeat split; assumption].
   destruct (py_limits ir) eqn:El; exists p, ir; repeat split; try assumption; reflexivity.
 Qed.
